@@ -42,6 +42,10 @@ def observe(vh, case, tier):
     base = singles[:40] if tier == "quick" else singles
     unions = [[a, b] for a in base for b in base]
     tb = singles[:12] if tier == "quick" else singles[:24]
+    # None and a nullable type always take part in the triples (absorption of None is where associativity can break)
+    for i, t in enumerate(case["types"]):
+        if len(t["ms"]) == 1 and (t["ms"][0]["n"] == "None" or (t["ms"][0]["q"] and t["ms"][0]["n"] in ("Int", "A"))) and (i + 1) not in tb:
+            tb.append(i + 1)
     triples = [[a, b, c] for a in tb for b in tb for c in tb]
     rec = {"src": case["src"], "types": case["types"], "reps": reps, "unions": unions, "triples": triples}
     out = vlib.run_vh(vh, ["types-table"], records=[rec])[0]
